@@ -751,6 +751,74 @@ func genGate(c *core.Ctx, t *core.Trace, cas int) error {
 	return h.err
 }
 
+// genSupp: suppression in focus -- same id / other text, other id / same text, ids that share their first ten
+// bytes across families, the families that are never cached, the borders of the interval, interval 0.
+func genSupp(c *core.Ctx, t *core.Trace, cas int) error {
+	h := &hist{c: c, t: t}
+	if !h.begin("supp", cas, nil) {
+		return h.err
+	}
+	defer h.end("supp", cas)
+	r := h.rng
+	id, oname := idPool[cas%len(idPool)], onamePool[(cas/2)%len(onamePool)]
+	h.clock(h.randStart())
+	h.open(id, oname, 0)
+	if h.lg == nil {
+		return h.err
+	}
+	iv := []int{10, 1, 2, 10}[cas%4]
+	if cas%4 > 0 {
+		h.configure(conf{level: 0, iv: iv, keep: 7, rot: true}, false)
+	}
+	ivms := int64(iv) * 1000
+	p := func(fn, pid, text string) { h.log(mkCall(fn, pid, text, 0, false)) }
+	pf := []string{"Println", "Printf"}[cas%2]
+	p(pf, "WA1", "alpha")
+	p(pf, "WA2", "alpha") // other id, same text
+	p(pf, "WA1", "beta")  // same id, other text
+	p("Warnf", "", "0123456789A")
+	p("Warnf", "", "0123456789B") // same first ten bytes
+	p("Infof", "", "0123456789C") // another family, same first ten bytes
+	p("Error", "", "012345678")   // "012345678\n": ten bytes of its own
+	p("Errorf", "", "012345678")  // nine bytes
+	p("Debugf", "", "dbg same")
+	p("Debugf", "", "dbg same") // never cached
+	p("PrintlnStd", "", "raw same")
+	p("PrintlnStd", "", "raw same")
+	h.advance(ivms - 1)
+	p(pf, "WA1", "gamma") // one millisecond inside the interval
+	p(pf, "WA3", "alpha")
+	p("Warnf", "", "0123456789A")
+	h.advance(1)
+	p(pf, "WA1", "delta") // the interval is over: must be written
+	p(pf, "WA2", "alpha")
+	p("Infof", "", "0123456789D")
+	p("Warn", "", "0123456789")
+	h.advance([]int64{1, ivms / 2, ivms - 1, ivms, ivms + 1}[r.Intn(5)])
+	pids := []string{"WA1", "WA2", "WA3", "W"}
+	msgs := []string{"alpha", "beta", "0123456789A", "0123456789B", "012345678", "W"}
+	for i := 0; i < 24 && h.err == nil; i++ {
+		switch x := r.Intn(10); {
+		case x < 7:
+			h.log(mkCall(fnNames[r.Intn(len(fnNames))], pids[r.Intn(len(pids))], msgs[r.Intn(len(msgs))], r.Intn(2), r.Intn(6) == 0))
+		case x < 9:
+			h.advance([]int64{1, 499, 500, 999, 1000, 1001, ivms - 1, ivms}[r.Intn(8)])
+		default:
+			niv := []int{0, 1, 2, 10, -1}[r.Intn(5)]
+			h.configure(conf{level: r.Intn(2), iv: niv, keep: 7, rot: true}, false)
+			if niv > 0 {
+				ivms = int64(niv) * 1000
+			}
+		}
+	}
+	h.configure(conf{level: 0, iv: 0, keep: 7, rot: true}, false)
+	p(pf, "WA1", "alpha")
+	p(pf, "WA1", "alpha") // interval 0: nothing is suppressed
+	p("Warnf", "", "0123456789A")
+	p("Warnf", "", "0123456789A")
+	return h.err
+}
+
 // ------------------------------------------------------ concurrent bursts
 
 var stampRe = regexp.MustCompile(`(?m)^\d{4}/\d\d/\d\d \d\d:\d\d:\d\d `)
@@ -960,6 +1028,7 @@ func Run(c *core.Ctx) error {
 	jobs := []job{
 		{"gate", c.Pick(12, 36), func(cas int) error { return genGate(c, t, cas) }},
 		{"retain", c.Pick(8, 40), func(cas int) error { return genRetain(c, t, cas) }},
+		{"supp", c.Pick(8, 40), func(cas int) error { return genSupp(c, t, cas) }},
 		{"read", c.Pick(6, 30), func(cas int) error { return genRead(c, t, cas, c.Pick(40, 80)) }},
 		{"seq", c.Pick(40, 400), func(cas int) error { return genSeq(c, t, cas, c.Pick(40, 70)) }},
 		{"burst", c.Pick(4, 16), func(cas int) error { return genBurst(c, t, "burst", cas, 8, c.Pick(12, 30), false) }},
